@@ -71,6 +71,27 @@ End Murmur.
 Fixpoint le_split (n : nat) (x : N) : list N :=
   match n with O => [] | S n' => N.modulo x 256 :: le_split n' (N.div x 256) end.
 
+(* ------------------------------------------------------------------ memswap (src/Assign.c) *)
+(* for (i = 0; i < s; i++) { t = p0[i]; p0[i] = p1[i]; p1[i] = t; }  on two disjoint byte images;
+   `swap` calls it with s = size(type) after checking that both objects have the same type.
+   (p0 == p1 returns at once: a value swapped with itself stays what it is.) *)
+Fixpoint set_nth (i : nat) (x : N) (l : list N) : list N :=
+  match l, i with
+  | [], _ => []
+  | _ :: t, O => x :: t
+  | y :: t, S i' => y :: set_nth i' x t
+  end.
+
+Fixpoint memswap_loop (fuel i : nat) (a b : list N) : list N * list N :=
+  match fuel with
+  | O => (a, b)
+  | S f =>
+    let t := nth i a 0%N in
+    memswap_loop f (S i) (set_nth i (nth i b 0%N) a) (set_nth i t b)
+  end.
+
+Definition memswap (a b : list N) (s : nat) : list N * list N := memswap_loop s 0 a b.
+
 (* ------------------------------------------------------------------ byte-string orders *)
 (* strcmp / memcmp: unsigned bytes, first difference decides, a proper prefix is smaller *)
 Fixpoint bytes_cmp (a b : list N) : Z :=
